@@ -15,7 +15,8 @@ RULE = ("A dataset of n sorted entries on a genome of 1..4 chromosomes and a set
         "of the 2^(n-1) chunkings for n <= N (exhaustive), sampled cut sets for n up to 200. Computations: bnp.mean, bnp.bincount, bnp.histogram "
         "(explicit edges, or bin count with explicit range), count_kmers, groupby on the sorted chromosome key (as an identifier column and as a text-typed ragged column, where keys such as chr1/chr10 are prefixes of each other), chunk_entries(stream, m), and "
         "per-chromosome pipelines built from the stream with Genome.get_intervals and evaluated with bnp.compute: pileup records, mask sum, "
-        "pileup histogram, pileup sum, and the column mean of the pileup under equal-length windows. Oracle: the same computation on the "
+        "pileup histogram, pileup sum, the column mean of the pileup under equal-length windows, and the same reductions evaluated together by one "
+        "bnp.compute call on a tuple or dict of nodes (every subset of mean, sum, histogram). Oracle: the same computation on the "
         "concatenated table through the in-memory path and an independent Python computation; floats within 1e-9 relative; values compared "
         "after flattening. Re-chunking: concatenated output == input in order and every chunk except the last has exactly m entries. "
         "Non-trivial: a chunking with a cut strictly inside a chromosome group, or a single-entry chunk, or a short last chunk.")
@@ -25,12 +26,12 @@ ASSUMPTIONS = [
     "Entries of one chromosome are contiguous and chromosomes appear in genome order (the streaming precondition; C12 covers its violation).",
 ]
 REQUIRED_CLASSES = ["cut-inside-group", "single-entry-chunk", "short-last-chunk", "one-chunk", "empty-chromosome", "trailing-empty-chromosome",
-                    "mean", "bincount", "histogram", "count_kmers", "groupby", "groupby-str", "chunk_entries", "pileup", "mask-sum", "pileup-histogram", "window-mean"]
+                    "mean", "bincount", "histogram", "count_kmers", "groupby", "groupby-str", "chunk_entries", "pileup", "mask-sum", "pileup-histogram", "window-mean", "joint"]
 BOUNDS = {"quick": "all 128 chunkings of n = 8 entries x 12 computations x 10 datasets; 1000 sampled", "thorough": "all chunkings for n = 10 on 12 datasets; 5000 sampled (n up to 200)"}
 BUDGET_S = {"quick": 200, "thorough": 1500}
 
 COMPS = ["mean", "bincount", "histogram", "histogram-range", "count_kmers", "groupby", "groupby-str", "chunk_entries", "pileup", "mask-sum", "pileup-histogram",
-         "pileup-sum", "window-mean"]
+         "pileup-sum", "window-mean", "joint"]
 
 
 def _where(e):
@@ -185,6 +186,36 @@ def check(case, stats=None):
                 want = np.histogram(np.array(flat_dense), bins=edges)
                 if np.asarray(got[0]).tolist() != want[0].tolist():
                     return [Failure("C11:pileup-histogram", {"streamed": np.asarray(got[0]).tolist(), "expected": want[0].tolist(), "edges": edges})]
+            elif comp == "joint":
+                # several reductions of one streamed pipeline evaluated by a single bnp.compute call (tuple or dict of nodes)
+                w = case["w"]
+                edges = case["edges"]
+                wins = [(n, s) for n in names for s in range(0, sizes[n] - w + 1, max(1, w))][:12]
+                if not wins:
+                    return []
+                wt = Interval([x[0] for x in wins], np.array([x[1] for x in wins], dtype=int), np.array([x[1] + w for x in wins], dtype=int))
+                gw = genome.get_intervals(NpDataclassStream(iter([wt]), dataclass=Interval))
+                pile = gi.get_pileup()
+                nodes = {"mean": pile[gw].mean(axis=0), "sum": pile.sum(), "hist": np.histogram(pile, bins=edges)}
+                which = [k_ for k_ in ("mean", "sum", "hist") if k_ in case["parts"]]
+                if case.get("as_dict"):
+                    res = bnp.compute({k_: nodes[k_] for k_ in which})
+                else:
+                    res = dict(zip(which, bnp.compute(tuple(nodes[k_] for k_ in which))))
+                want_mean = [sum(dense[n][s + j] for n, s in wins) / len(wins) for j in range(w)]
+                want_hist = np.histogram(np.array(flat_dense), bins=edges)[0].tolist()
+                if "mean" in res:
+                    ok = False
+                    try:
+                        ok = close(res["mean"], want_mean)
+                    except Exception:
+                        pass
+                    if not ok:
+                        return [Failure("C11:joint-compute:mean", {"streamed": repr(res["mean"])[:300], "expected": want_mean, "parts": which})]
+                if "sum" in res and int(np.asarray(res["sum"])) != sum(flat_dense):
+                    return [Failure("C11:joint-compute:sum", {"streamed": repr(res["sum"])[:200], "expected": sum(flat_dense), "parts": which})]
+                if "hist" in res and np.asarray(res["hist"][0]).tolist() != want_hist:
+                    return [Failure("C11:joint-compute:histogram", {"streamed": repr(res["hist"])[:200], "expected": want_hist, "parts": which})]
             elif comp == "window-mean":
                 w = case["w"]
                 wins = [(n, s) for n in names for s in range(0, sizes[n] - w + 1, max(1, w))][:12]
@@ -246,6 +277,11 @@ def make_case(genome, ents, cuts, comp, salt):
         case["m"] = 1 + salt % 4
     if comp == "window-mean":
         case["w"] = 1 + salt % 3
+    if comp == "joint":
+        case["w"] = 1 + salt % 3
+        case["edges"] = [0, 1, 2, 3, 5, 20]
+        case["parts"] = [["mean", "sum", "hist"], ["mean", "sum"], ["mean", "hist"], ["sum", "hist"], ["mean"]][salt % 5]
+        case["as_dict"] = bool((salt // 5) % 2)
     return case
 
 
